@@ -5,7 +5,7 @@ import Jqawk.Model.Bytes
     * `json.MarshalIndent(v, "", "  ")`                          (`marshalIndent`)
   Core library only.  All functions are total and structurally recursive (no fuel needed):
   the decoder is a single left-to-right fold of the scanner state machine of scanner.go,
-  extended with the partially built values (Go runs the scanner twice: stream.go `readValue`
+  extended with the values built so far (Go runs the scanner twice: stream.go `readValue`
   finds the extent, decode.go `valueInterface` re-scans it and builds the value).
 -/
 namespace Jqawk
@@ -380,8 +380,8 @@ def quoteAt (c : UInt8) (rest : Bytes) : Bytes × Nat :=
     | 0 => ([0x64, 0x66, 0x66, 0x66, 0x75, 0x5C], 0)          -- the six characters \ufffd
     | w + 1 =>
       match c, rest with
-      | 0xE2, 0x80 :: 0xA8 :: _ => ([0x38, 0x32, 0x30, 0x32, 0x75, 0x5C], 2)   --
-      | 0xE2, 0x80 :: 0xA9 :: _ => ([0x39, 0x32, 0x30, 0x32, 0x75, 0x5C], 2)   --
+      | 0xE2, 0x80 :: 0xA8 :: _ => ([0x38, 0x32, 0x30, 0x32, 0x75, 0x5C], 2)   -- U+2028 -> \u2028
+      | 0xE2, 0x80 :: 0xA9 :: _ => ([0x39, 0x32, 0x30, 0x32, 0x75, 0x5C], 2)   -- U+2029 -> \u2029
       | _, _ => ((c :: rest.take w).reverse, w)
 
 /-- `appendString`, output reversed onto `acc` -/
